@@ -487,6 +487,97 @@ def run_reg(c):
 
 
 # ----------------------------------------------------------------------------
+# family stream: ONE `def` executed several times (loop / factory) - the function objects share a code
+# object but differ in __defaults__, __kwdefaults__, attributes, __name__ and the objects they are bound to
+FAMILY_BODY = {
+    'func': "        log.append(x)\n        return ('r', x, i, k, len(log))\n",
+    'gen': "        log.append(x)\n        got = yield (x, i)\n        yield (got, k)\n        return ('ret', i, k, len(log))\n",
+    'tgen': "        log.append(x)\n        got = yield (x, i)\n        yield (got, k)\n        return ('ret', i, k, len(log))\n",
+    'coro': "        log.append(x)\n        return ('co', x, i, k, len(log))\n",
+    'agen': "        log.append(x)\n        yield (x, i)\n        yield (k, len(log))\n",
+}
+
+
+def family_source(kind, how):
+    head = ('async def ' if kind in ('coro', 'agen') else 'def ') + 'cb(x=0, i=I, *, k=K, log=LOG):\n'
+    deco = '    @types.coroutine\n' if kind == 'tgen' else ''
+    body = FAMILY_BODY[kind]
+    if how == 'loop':
+        # the `def cb(x, i=i)` idiom: a def statement in a loop, values bound as defaults (no closure)
+        return ('import types\nfs = []\nfor j in range(N):\n    I, K, LOG = ivals[j], kvals[j], logs[j]\n' + deco +
+                '    ' + head + body + '    post(cb, j)\n    fs.append(hook(cb))\n')
+    # a factory called several times; the inner def binds its argument as a default (no closure either)
+    return ('import types\ndef mk(I, K, LOG, j):\n' + deco + '    ' + head + body +
+            '    post(cb, j)\n    return hook(cb)\nfs = [mk(ivals[j], kvals[j], logs[j], j) for j in range(N)]\n')
+
+
+def build_family(c, hook):
+    n = c['n']
+    ivals = [10] * n if c['same_defaults'] else [10 + j for j in range(n)]
+    kvals = [7] * n if c['same_defaults'] else [100 * (j + 1) for j in range(n)]
+    logs = [[] for _ in range(n)]          # equal values, distinct objects
+
+    def post(f, j):
+        f.tag = 'tag%d' % j
+        if c.get('rename'):
+            f.__name__ = 'cb_%d' % j
+            f.__qualname__ = 'renamed.cb_%d' % j
+    originals = []
+
+    def hook_(f):
+        originals.append(f)
+        return hook(f)
+    ns = dict(N=n, ivals=ivals, kvals=kvals, logs=logs, post=post, hook=hook_ if c['when'] == 'each' else (lambda f: (originals.append(f), f)[1]))
+    exec(compile(family_source(c['kind'], c['how']), '<c03family>', 'exec'), ns)
+    fs = ns['fs']
+    if c['when'] != 'each':
+        fs = [hook(f) for f in fs]
+    return fs, originals, logs
+
+
+def family_observe(c, fs, originals, logs):
+    kind = c['kind']
+    out = []
+    order = list(range(len(fs)))
+    if c.get('reverse'):
+        order.reverse()
+    for j in order:
+        f = fs[j]
+        row = [j]
+        for args, kw in (((), {}), ((5,), {}), ((5, 6), {}), ((5,), {'k': 1})):
+            row.append(canon(consume(kind, lambda: f(*args, **kw))))
+        row.append([getattr(f, 'tag', None), f.__name__, f.__qualname__])
+        try:
+            row.append(str(inspect.signature(f)))
+        except Exception as e:      # noqa
+            row.append('exc:' + type(e).__name__)
+        w = getattr(f, '__wrapped__', f)
+        row.append([canon(w.__defaults__), canon(w.__kwdefaults__)])
+        out.append(row)
+    out.append(['logs', [len(x) for x in logs]])
+    out.append(['distinct', len({id(f) for f in fs})])
+    return out
+
+
+def run_family(c):
+    """c: kind, n, how ('loop'|'factory'), same_defaults, when ('each': decorated where defined, like @profile /
+    auto-profiling; 'after': all decorated afterwards), rename, reverse, prof"""
+    ref_fs, ref_orig, ref_logs = build_family(c, lambda f: f)
+    ref = family_observe(c, ref_fs, ref_orig, ref_logs)
+    prof = new_profiler(c['prof'])
+    try:
+        fs, orig, logs = build_family(c, prof)
+        got = family_observe(c, fs, orig, logs)
+        wrapped_own = [getattr(f, '__wrapped__', None) is o for f, o in zip(fs, orig)]
+        leaked = not tool_free()
+    except BaseException as e:      # noqa
+        got, wrapped_own, leaked = [['failed', type(e).__name__, str(e)[:200]]], [], not tool_free()
+    finally:
+        force_free([prof])
+    return dict(ref=ref, got=got, wrapped_own=wrapped_own, leaked=leaked)
+
+
+# ----------------------------------------------------------------------------
 # measured observation (not part of the verdict): where does an argument-binding TypeError of a
 # generator-like callable surface?
 def run_defer(c):
@@ -501,7 +592,7 @@ def run_defer(c):
 
 def run(payload):
     out = {}
-    for key, fn in (('nest', run_nest), ('desc', run_desc), ('meta', run_meta), ('reg', run_reg), ('defer', run_defer)):
+    for key, fn in (('nest', run_nest), ('desc', run_desc), ('meta', run_meta), ('reg', run_reg), ('family', run_family), ('defer', run_defer)):
         res = []
         for c in payload.get(key, []):
             try:
